@@ -32,10 +32,11 @@ def _run_one(args) -> Tuple[str, str, str]:
     if src.count(old) != 1:
         return name, "skipped", f"anchor text occurs {src.count(old)} times"
     mutated = src.replace(old, new)
-    try:
-        compile(mutated, relfile, "exec")
-    except SyntaxError as exc:
-        return name, "broken", f"mutant does not compile: {exc}"
+    if relfile.endswith(".py"):
+        try:
+            compile(mutated, relfile, "exec")
+        except SyntaxError as exc:
+            return name, "broken", f"mutant does not compile: {exc}"
     tmp = tempfile.mkdtemp(prefix="kvst_")
     try:
         shutil.copytree(os.path.join(root, "kaira"), os.path.join(tmp, "kaira"), ignore=shutil.ignore_patterns("__pycache__", "*.pyc"))
